@@ -160,6 +160,7 @@ func (n UnixFSHAMTShard) loadChild(pbLink dagpb.PBLink) (UnixFSHAMTShard, error)
 	if err != nil {
 		return nil, err
 	}
+	verifYield("loadChild")
 	// every shard of one HAMT has the same fanout: the hash is consumed in
 	// fixed-width steps and link names are stripped of a fixed-width prefix
 	if pf, cf := n.data.FieldFanout().Must().Int(), und.data.FieldFanout().Must().Int(); pf != cf {
@@ -296,6 +297,7 @@ func (n UnixFSHAMTShard) length() (int64, error) {
 			total += cl
 		}
 	}
+	verifYield("length")
 	n.cachedLength = total
 	return total, nil
 }
